@@ -104,6 +104,7 @@ package browse
 //@ define knownArchive(t ArchiveType) bool = t == "zip" || t == "tar" || t == "tar.gz" || t == "tar.xz" || t == "tar.br" || t == "tar.bz2" || t == "tar.lz4" || t == "tar.sz" || t == "tar.zst"
 //@ func (ArchiveType).GetWriter
 //@   requires [only_archive_types_the_writer_table_knows] knownArchive(a)
+//@   ensures [a_known_type_has_a_writer] result != nil
 //@ func (Browse).ServeArchive
 //@   requires [only_a_known_archive_type_is_served] knownArchive(archiveType)
 //@ func (Browse).ServeListing
